@@ -211,3 +211,39 @@ def ec_query(qid, params, ctx):
     except Unsupported as e:
         return {"status": ERROR, "detail": "outside encodable class: %s" % e}
     return {"status": HOLDS, "stats": agg, "validated_traces": val, "solver_time_s": time.time() - t0, "witness_ok": agg["paths"] > 0}
+
+
+def update_algebra_lemma(qid, params, ctx):
+    """C13 algebra over the structural multiply-accumulate specification (what every kernel was proved equal to):
+    with arbitrary table bytes and source bytes, (i) applying the single-source update for all k sources in ANY order
+    starting from zero parity equals the dot-product specification of C03, (ii) applying one update twice cancels it.
+    Decided by z3 for every permutation of k <= 4 sources (one symbolic byte position; positions are independent)."""
+    import itertools
+    t0 = time.time()
+    k = params["k"]
+    gfni = params.get("gfni", False)
+    tsz = 8 if gfni else 32
+    tbl = [z3.BitVec("t%d" % i, 8) for i in range(k * tsz)]
+    src = [z3.BitVec("s%d" % j, 8) for j in range(k)]
+    d0 = z3.BitVec("d0", 8)
+    cache = {}
+    term = [lookup(tbl[j * tsz:(j + 1) * tsz], src[j], gfni, cache) for j in range(k)]
+    full = 0
+    for j in range(k):
+        full = bv.xor(8, full, term[j])
+    n = 0
+    for perm in itertools.permutations(range(k)):
+        acc = 0
+        for j in perm:
+            acc = bv.xor(8, acc, term[j])     # mad spec: dest' = dest ^ lookup(T[vec_i], src)
+        r, m = smt_check([bv.z(8, acc) != bv.z(8, full)])
+        n += 1
+        if r != z3.unsat:
+            return {"status": VIOLATED if r == z3.sat else UNDECIDED, "detail": "update order %s differs from the full encode" % (perm,), "cex": None, "replay_ok": None}
+    for j in range(k):
+        twice = bv.xor(8, bv.xor(8, d0, term[j]), term[j])
+        r, m = smt_check([bv.z(8, twice) != d0])
+        n += 1
+        if r != z3.unsat:
+            return {"status": VIOLATED if r == z3.sat else UNDECIDED, "detail": "double update does not cancel", "cex": None, "replay_ok": None}
+    return {"status": HOLDS, "stats": {"clauses": n, "variables": k * tsz + k + 1, "paths": 1}, "solver_time_s": time.time() - t0, "witness_ok": True}
